@@ -45,7 +45,8 @@ section
 variable {C : UCfg} (E : MtEquiv C) {key uv : Nat → Nat} {L : Nat}
   (sv cont : Nat → Nat → Bool)
   (hsv : ∀ a b, a < 2 * L → b < 2 * L → (sv a b = true ↔ sameVG C key uv a b))
-  (hcont : ∀ a b, a < 2 * L → b < 2 * L → (cont a b = true ↔ (C.deadSame = true → uv b ≠ uv a)))
+  (hcont : ∀ a b, a < 2 * L → b < 2 * L → sv a b = true →
+      (cont a b = true ↔ (C.deadSame = true → uv b ≠ uv a)))
 include E hsv hcont
 
 theorem partner_iff_filter (a b : Nat) (ha : a < 2 * L) :
@@ -54,9 +55,10 @@ theorem partner_iff_filter (a b : Nat) (ha : a < 2 * L) :
   rw [filter_range_singleton]
   constructor
   · rintro ⟨⟨h1, h2, h3⟩, h4, h5, h6⟩
-    refine ⟨⟨h1, ?_, ?_⟩, (hcont a b ha h1).mpr h6⟩
+    have hs : sv a b = true := (hsv a b ha h1).mpr ⟨h3.symm, by rw [E.symm]; exact h4⟩
+    refine ⟨⟨h1, ?_, ?_⟩, (hcont a b ha h1 hs).mpr h6⟩
     · simp only [Bool.and_eq_true, bne_iff_ne, ne_eq]
-      exact ⟨h2, (hsv a b ha h1).mpr ⟨h3.symm, by rw [E.symm]; exact h4⟩⟩
+      exact ⟨h2, hs⟩
     · intro x hx hp
       simp only [Bool.and_eq_true, bne_iff_ne, ne_eq] at hp
       obtain ⟨k1, k2⟩ := (hsv a x ha hx).mp hp.2
@@ -64,7 +66,7 @@ theorem partner_iff_filter (a b : Nat) (ha : a < 2 * L) :
   · rintro ⟨⟨h1, h2, h3⟩, h4⟩
     simp only [Bool.and_eq_true, bne_iff_ne, ne_eq] at h2
     obtain ⟨k1, k2⟩ := (hsv a b ha h1).mp h2.2
-    refine ⟨⟨h1, h2.1, k1.symm⟩, by rw [E.symm]; exact k2, ?_, (hcont a b ha h1).mp h4⟩
+    refine ⟨⟨h1, h2.1, k1.symm⟩, by rw [E.symm]; exact k2, ?_, (hcont a b ha h1 h2.2).mp h4⟩
     intro s ⟨s1, s2, s3⟩ sm
     apply h3 s s1
     simp only [Bool.and_eq_true, bne_iff_ne, ne_eq]
@@ -264,7 +266,8 @@ cycle through all edges" of the generic undirected engine -/
 theorem oracle_core {C : UCfg} (E : MtEquiv C) {key uv : Nat → Nat} {L : Nat} (hL : 0 < L)
     (sv cont : Nat → Nat → Bool)
     (hsv : ∀ a b, a < 2 * L → b < 2 * L → (sv a b = true ↔ sameVG C key uv a b))
-    (hcont : ∀ a b, a < 2 * L → b < 2 * L → (cont a b = true ↔ (C.deadSame = true → uv b ≠ uv a))) :
+    (hcont : ∀ a b, a < 2 * L → b < 2 * L → sv a b = true →
+      (cont a b = true ↔ (C.deadSame = true → uv b ≠ uv a))) :
     (degreeOkG (2 * L) sv cont = true ∧ (closureG sv L L [0]).length = L) ↔
       ∃ c, IsCycle L (adjG C key uv) (sameVG C key uv) c := by
   rw [degreeOkG_iff E sv cont hsv hcont, closureG_iff hL sv hsv]
